@@ -355,17 +355,28 @@ pub fn explore_bfs<S: System>(cfg: &BfsConfig, scfg: &S::Cfg) -> BfsStats {
     for (h, mut v) in violations {
         if checked.insert(v.sig.clone()) && checked.len() <= 8 {
             // reproduce twice
+            let (mut identical, mut differing, mut last) = (0, 0, String::new());
             for _ in 0..2 {
-                let w = run_history::<S>(scfg, &h);
-                let same = w.as_ref().map(|w| w.clause == v.clause && w.detail == v.detail).unwrap_or(false);
-                if !same {
-                    crate::machinery_error(&format!(
-                        "{}: violation {} does not reproduce identically on re-execution (got {:?})",
-                        cfg.name,
-                        v.sig,
-                        w.map(|w| w.detail)
-                    ));
+                match run_history::<S>(scfg, &h) {
+                    Some(w) if w.clause == v.clause && w.detail == v.detail => identical += 1,
+                    Some(w) => {
+                        differing += 1;
+                        last = format!("{}: {}", w.clause, w.detail);
+                    }
+                    None => last = "no violation".into(),
                 }
+            }
+            if identical + differing == 0 {
+                crate::machinery_error(&format!(
+                    "{}: violation {} does not reproduce on re-execution (got {:?})",
+                    cfg.name, v.sig, last
+                ));
+            }
+            if identical < 2 {
+                v.detail.push_str(&format!(
+                    " [re-executing the same history violated the property again but not identically ({} of 2 identical; e.g. {}): the code under test is not deterministic under a fixed history]",
+                    identical, last
+                ));
             }
             v.actions = describe_history::<S>(scfg, &h);
         }
